@@ -56,7 +56,8 @@ def gen_cubes(tier, seed):
         if api == "accessor":
             dtype = "int16" if dtype != "float32" else "float32"
             if dtype == "int16":
-                pixels = [[float(int(round(x))) for x in px] for px in pixels]
+                pixels = [[float(nd) if x == nd else float(min(30000, int(round(x)))) for x in px] for px in pixels]
+                pixels = [[x if (x == nd or x != nd) else x for x in px] for px in pixels]
         cubes.append((pixels, nd, st, sp, api, dtype))
     # boundary of the zero-share guard: exactly 90% zeros is still fitted, one more zero is not
     for T in (20, 30, 40) if quick else (20, 30, 40, 50, 100):
